@@ -544,6 +544,32 @@ fn monitor(ctx: &Ctx, cj: &dyn Fn() -> Value) {
             }
         }
     }
+    // a key object and its clone must not share nonces: 4 signatures each on distinct messages, the nonce recovered from
+    // every signature as k = s (1 + d) + r d mod n, all 8 different (a generator stored inside the key object is copied by Clone)
+    {
+        let n = sm2::params().n.clone();
+        let d = from_limbs(&gm_sm2::verif::random_u256()) % (&n - 2u32) + 1u32;
+        let sk = a2::private_key(&d);
+        let sk2 = sk.clone();
+        let mut ks: Vec<BigUint> = Vec::new();
+        for i in 0..8u32 {
+            let who = if i % 2 == 0 { &sk } else { &sk2 };
+            let msg = format!("clone nonce probe {}", i);
+            ctx.call();
+            if let Guard::Done(Ok(sig)) = guard(|| who.sign(None, msg.as_bytes())) {
+                if sig.len() == 64 {
+                    let (r, sv) = (from_be(&sig[..32]), from_be(&sig[32..]));
+                    ks.push((&sv * (&d + 1u32) + &r * &d) % &n);
+                }
+            }
+        }
+        let total = ks.len();
+        ks.sort();
+        ks.dedup();
+        if ks.len() != total || total != 8 {
+            ctx.violation("sm2.sign", "monitor/nonce-shared-between-a-key-object-and-its-clone", format!("{} distinct nonces in {} signatures", ks.len(), total), cj());
+        }
+    }
     // two fresh processes must not produce the same stream either (a process-wide generator with a fixed seed
     // passes the thread comparison above)
     let run = || -> Option<String> {
@@ -701,7 +727,7 @@ pub fn run(ctx: &Arc<Ctx>) {
     // ---- monitor
     let before = ctx.violations().len();
     eval(ctx, &Case::Monitor);
-    ctx.cov("monitor", json!({"kind": "statistical monitor, not model checking", "draws_per_sampler": 4096, "checks": ["no duplicates", "in range", "leading-byte histogram of 65536 draws within 8 sigma", "bits 0..=250 within 8 sigma", "fresh threads give different streams", "8 concurrent threads draw pairwise different scalars", "the first scalars of 4096 fresh threads are pairwise different", "fresh processes give different streams"], "violations": ctx.violations().len() - before}));
+    ctx.cov("monitor", json!({"kind": "statistical monitor, not model checking", "draws_per_sampler": 4096, "checks": ["no duplicates", "in range", "leading-byte histogram of 65536 draws within 8 sigma", "bits 0..=250 within 8 sigma", "fresh threads give different streams", "8 concurrent threads draw pairwise different scalars", "the first scalars of 4096 fresh threads are pairwise different", "fresh processes give different streams", "a key object and its clone sign with different nonces"], "violations": ctx.violations().len() - before}));
     ctx.assume("'every bit position is unbiased' and 'seeded from the operating system' are statements about a distribution; bounded enumeration cannot decide them. They are only monitored (coverage.structural.monitor).");
     let _ = gdbg::<u8>;
 }
